@@ -318,7 +318,7 @@ class VSock:
                             b"Sec-WebSocket-Accept: " + acc + b"\r\n\r\n")
                 else:
                     head = b"HTTP/1.1 %d Nope\r\n" % self.status + getattr(self, "reject_tail", b"\r\n")
-                self.inbox.append((self.w.now, "D", head))
+                self.inbox.append((self.w.now, "D", head + getattr(self, "glue", b"")))      # glue: frames sharing the segment / TLS record of the response
                 for e in self.script:
                     self.inbox.append((self.w.now + e[0],) + tuple(e[1:]))
         return len(data)
